@@ -121,7 +121,8 @@ def compute_variables(
     ).year
     sim_years = np.arange(start_year, end_year + 1)
 
-    # Interpolate data
+    # Interpolate data (np.interp requires the years in ascending order)
+    co2Data = co2Data.sort_values("year", kind="stable")
     CO2conc_interp = np.interp(sim_years, co2Data.year, co2Data.ppm)
 
     # Store data
